@@ -287,6 +287,7 @@ var verifTok :number[] = [];
 var verifVal :number[] = [];
 var verifLog :number[] = [];
 var verifRequests = 0;
+var verifUseIdx = false;
 function verifReduce(k :number) { verifLog.push(k) }
 function GetToken(input :string, model:{ValType :ValType, pos :number}) :number {
 	verifRequests++
@@ -297,12 +298,31 @@ function GetToken(input :string, model:{ValType :ValType, pos :number}) :number 
 	}
 	model.ValType = new ValType()
 	model.ValType.val = verifVal[i]
+	if (verifUseIdx) {
+		let k = verifTok[i]
+		if (k == -1) {
+			return -1
+		}
+		if (k < 0 || k >= verifCodes.length) {
+			return 987654321
+		}
+		return verifCodes[k]
+	}
 	return verifTok[i]
 }
 `
 
 func (s *Spec) TSText() string {
-	return s.Render(RenderOpts{TS: true, Prologue: TSPrologue, Epilogue: TSEpilogue, Union: TSUnion})
+	var codes []string
+	for _, t := range s.Toks {
+		if t.Name == "" {
+			codes = append(codes, fmt.Sprint(int(t.Char)))
+		} else {
+			codes = append(codes, t.Name)
+		}
+	}
+	ep := TSEpilogue + "var verifCodes :number[] = [" + strings.Join(codes, ", ") + "];\n"
+	return s.Render(RenderOpts{TS: true, Prologue: TSPrologue, Epilogue: ep, Union: TSUnion})
 }
 
 func (s *Spec) GoText() string {
